@@ -316,7 +316,7 @@ def drive(cfg, observers=True, post_calls=3):
                          f"{max_actions} actions without conclusion (generous "
                          "bound: 60*(N+2)^2 per pass)")
             break
-        if len(run.failures) + len(run.obs) > 200:
+        if len(run.obs) > 5000:
             break       # hopeless stream: enough has been recorded
         was_final = finalised
         try:
